@@ -599,6 +599,7 @@ class GenConfig:
         c.p_expanded = rng.choice([0.0, 0.3, 0.8])
         c.use_imported_types = rng.chance(0.7)
         k = rng.fork("shapes")          # forked: the knobs above keep the values they had before these were added
+        c.arrays_of_records = k.fork("recarr").chance(0.5)
         c.p_pod_record = k.choice([0.0, 0.3, 0.6])
         c.p_optional_alias = k.choice([0.0, 0.3, 0.6])
         return c
@@ -765,6 +766,8 @@ class PackageGen:
         enums = [t for t in self.pool if isinstance(self.structural(t), tuple) and self.structural(t)[0] == "enum" and t.ns is None]
         if enums and r.chance(0.2):
             return r.choice(enums)
+        if self.cfg.arrays_of_records and self.pod_pool and r.fork("recarr", len(self.pool)).chance(0.35):
+            return r.fork("recarr2", len(self.pool)).choice(self.pod_pool)        # arrays of records (NumPy structured dtypes; C++ arrays of structs)
         if self.cfg.time_types and r.fork("timearr", len(self.pool)).chance(0.15):
             return Prim(r.fork("timearr2", len(self.pool)).choice(TIME_PRIMS))      # arrays of dates / times / datetimes
         return self.gen_prim(numeric_only=True)
